@@ -1,4 +1,15 @@
 import GoImap.Props.C10
-#print axioms GoImap.C10.failAll_no_pending
+#print axioms GoImap.C10.step_decreases
+#print axioms GoImap.C10.inv_reachable
+#print axioms GoImap.C10.postFault_inject
+#print axioms GoImap.C10.postFault_fired
+#print axioms GoImap.C10.stuck_is_terminal
+#print axioms GoImap.C10.fault_drains
+#print axioms GoImap.C10.fault_drains_inv
+#print axioms GoImap.C10.incomplete_is_error
+#print axioms GoImap.C10.wait_reports_result
 #print axioms GoImap.C10.lit_cut_drains
 #print axioms GoImap.C10.legacy_lit_cut_counterexample
+#print axioms GoImap.C10.legacy_tag_counterexample
+#print axioms GoImap.C10.eager_auth_drains
+#print axioms GoImap.C10.contract_example
